@@ -187,6 +187,53 @@ Proof.
     split; [|split; [apply lookup_insert|done]].
     rewrite lookup_insert_ne by done. unfold spawned. cbn. rewrite (left_id_L ∅ (∪)). by rewrite lookup_delete_ne.
 Qed.
+
+(* ------------------------------------------------------------------ the target sends a negative message with itself as continuation *)
+Inductive self_msg : (name -> msg) -> Prop :=
+| SM_rcv pay : self_msg (fun n => Msg RRCV pay n [] "")
+| SM_bra l : self_msg (fun n => Msg RBRA n zero_name [] l)
+| SM_shf : self_msg (fun n => Msg RSHF n zero_name [] "").
+
+Lemma send_client_provs a b ka kb body nx k2 m :
+  chan a = Some ka -> chan b = Some kb -> k2 <> ka -> action_of NP D (Proc [a] body nx) = ASend k2 m ->
+  exists M, self_msg M /\ m = M a /\ action_of NP D (Proc [b] body nx) = ASend k2 (M b).
+Proof.
+  intros Ha Hb Hk2. unfold action_of. cbn [pr_body0].
+  destruct body as [to pay cont|pay cont from k0|to l cont|from bs|x b0 k0|c0|c0 k0|to from d|x y from k0|fn args pt|to cont|x from k0|c0 k0|l k0]; simpl;
+    unfold send_on, recv_on, internal, self_chan, self_name_of, prov0, multi; simpl; rewrite ?Ha, ?Hb; intros Hact;
+    repeat match type of Hact with
+           | (if ?x then _ else _) = _ => destruct x eqn:?
+           | match ?x with _ => _ end = _ => destruct x eqn:?
+           end; try discriminate; injection Hact as <- <-; try done.
+  all: first [ eexists; split; [apply SM_rcv|]; split; reflexivity
+             | eexists; split; [apply SM_bra|]; split; reflexivity
+             | eexists; split; [apply SM_shf|]; split; reflexivity ].
+Qed.
+
+Lemma recv_self_generic r pr M a e : self_msg M -> body_is_fwd (pr_body0 pr) = false -> on_message r pr (M a) = EOk e ->
+  exists B, e = eff_with [a] B (pr_next pr) [] [] [] /\ forall b, on_message r pr (M b) = EOk (eff_with [b] B (pr_next pr) [] [] []).
+Proof.
+  intros HM Hnf He. unfold on_message in *. destruct HM; cbn [m_rule rule_eqb andb m_c1 m_c2 m_label] in *.
+  all: destruct (pr_body0 pr) as [to pay0 cont|pay0 cont from k0|to l0 cont|from bs|x b0 k0|c0|c0 k0|to from d|x y from k0|fn args pt|to cont|x from k0|c0 k0|l0 k0];
+    try discriminate He; try discriminate Hnf.
+  all: try (destruct (is_self from); try discriminate He).
+  all: try (match type of He with context [find_branch ?l1 ?bs1] => destruct (find_branch l1 bs1) as [[? ?]|]; [|discriminate He] end).
+  all: injection He as <-; unfold no_eff, set_provs_body, eff_with; cbn; eauto.
+Qed.
+
+Lemma ctl_send_commute c f t r nf k n0 pr B :
+  f <> t -> f <> r -> t <> r -> procs c !! t = Some (Proc [n0] (pr_body0 (Proc [n0] B 0)) 0) \/ True ->
+  forall pt, procs c !! t = Some pt -> procs c !! r = Some pr ->
+  ctl nf k f r (apply_effect (del_proc c t) r pr (eff_with [n0] B (pr_next pr) [] [] [])) =
+  apply_effect (del_proc (ctl nf k f t c) t) r pr (eff_with [nf] B (pr_next pr) [] [] []).
+Proof.
+  intros Hft Hfr Htr _ pt Hpt Hr. rewrite !apply_effect_eq. unfold eff_with, procs_after, eff_next1, eff_next0, eff_base.
+  cbn [e_after e_spawn e_newch e_close e_out procs chans out pr_provs pr_body0 pr_next del_proc length].
+  unfold ctl. cbn [procs chans out]. rewrite lookup_insert. rewrite Hpt. cbn [pr_body0 pr_next procs chans out]. unfold spawned. cbn [add_spawns fst].
+  rewrite !(left_id_L ∅ (∪)). f_equal.
+  - apply map_eq. intros q. destruct (decide (q = r)) as [->|Hqr]; [by rewrite !lookup_insert|].
+    destruct (decide (q = t)) as [->|Hqt]; [by simplify_map_eq|]. destruct (decide (q = f)) as [->|Hqf]; by simplify_map_eq.
+Qed.
 End Join.
 
 (* ------------------------------------------------------------------ two control messages in a row: f -> t -> t' *)
